@@ -1,6 +1,6 @@
 SPECIFICATION Spec
 CONSTANTS
-  Users = {"u1"}
+  Users = {"u1", "u2"}
   MinUnitsC = {"maa", "mbb", "ibc/x1"}
   RecordHist = FALSE
   Owners = {}
